@@ -448,7 +448,7 @@ pub fn check() -> Check {
         property: "C16",
         level: "fault_enumeration",
         scenarios: vec![Box::new(SpillChannel { faults: false }), Box::new(SpillChannel { faults: true })],
-        cases_quick: 10_000,
+        cases_quick: 16_000,
         cases_thorough: 200_000,
         rule: "cases: seeded workloads (spsc or mpsc with 1-3 writers via clone/new_sink, 0-4 batches each incl. empty ones, rotation after every/k/no batches, reader draining or dropped after k, in half of the fault-free cases every writer keeps its sink alive until the reader has delivered that writer's batches (wake-up on data, not only on the last drop), SimDisk read chunking 1B..all, injected Pending and write buffering of 0/24/200/8192 bytes (bytes visible to the reader only at flush/finish)), 40% of them with one scripted disk fault (k-th write/flush/finish/create, torn or not, sticky or not, position spread over the whole run); each case explored under seeded random and PCT shuttle schedules with scheduling points at every pool/file/disk lock. distinct = distinct (case, recorded schedule); non-trivial = some decision had >= 2 runnable tasks",
         assumptions: vec![
